@@ -1026,7 +1026,9 @@ class Variable(CanBehaveLikeAVariable[T]):
                     self,
                 )
         elif self._should_be_instantiated_:
-            yield from self._instantiate_using_child_vars_and_yield_results_(sources)
+            yield from self._instantiate_using_child_vars_and_yield_results_(
+                sources, parent
+            )
         else:
             raise ValueError("Cannot evaluate variable.")
 
@@ -1035,15 +1037,22 @@ class Variable(CanBehaveLikeAVariable[T]):
         return self._is_inferred_ or self._predicate_type_
 
     def _instantiate_using_child_vars_and_yield_results_(
-        self, sources: Dict[int, HashedValue]
+        self,
+        sources: Dict[int, HashedValue],
+        parent: Optional[SymbolicExpression] = None,
     ) -> Iterable[OperationResult]:
+        # the value of a predicate or symbolic function is a truth value only where it is used as a condition, as an
+        # operand (e.g., of a comparison) a falsy value is a value like any other.
+        is_a_condition = self._is_evaluated_as_a_condition_(parent)
         for kwargs in self._generate_combinations_for_child_vars_values_(sources):
             # Build once: unwrapped hashed kwargs for already provided child vars
             bound_kwargs = {k: v[self._child_vars_[k]._id_] for k, v in kwargs.items()}
             instance = self._type_(**{k: hv.value for k, hv in bound_kwargs.items()})
             if self._predicate_type_ == PredicateType.SubClassOfPredicate:
                 instance = instance()
-            yield self._process_output_and_update_values_(instance, kwargs)
+            yield self._process_output_and_update_values_(
+                instance, kwargs, is_a_condition
+            )
 
     def _generate_combinations_for_child_vars_values_(
         self, sources: Optional[Dict[int, HashedValue]] = None
@@ -1065,13 +1074,17 @@ class Variable(CanBehaveLikeAVariable[T]):
         yield from generate(list(self._child_vars_.items()), sources or {}, {})
 
     def _process_output_and_update_values_(
-        self, instance: Any, kwargs: Dict[str, OperationResult]
+        self,
+        instance: Any,
+        kwargs: Dict[str, OperationResult],
+        is_a_condition: bool = True,
     ) -> OperationResult:
         """
         Process the predicate/variable instance and get the results.
 
         :param instance: The created instance.
         :param kwargs: The keyword arguments of the predicate/variable.
+        :param is_a_condition: Whether the instance is used as a condition, i.e., its truth value matters.
         :return: The results' dictionary.
         """
         hv = HashedValue(instance)
@@ -1081,7 +1094,7 @@ class Variable(CanBehaveLikeAVariable[T]):
         for d in kwargs.values():
             values.update(d.bindings)
         # conclusion selectors (e.g., Alternative) read the truth flag of their operands to select the conclusions.
-        self._is_false_ = not bool(instance)
+        self._is_false_ = is_a_condition and not bool(instance)
         return OperationResult(values, self._is_false_, self)
 
     @property
